@@ -70,46 +70,53 @@ theorem firstDiff_of_all (a b : List Nat) (ha : a ≠ []) (hb : b ≠ [])
           rw [e, hrec]
           simp only [List.length_cons]; omega
 
+private theorem inb_ofNat' (a : List Int) (i : Nat) (h : i < a.length) : inb a (i : Int) = true := by
+  simp only [inb, Bool.and_eq_true, decide_eq_true_eq]; omega
+
 theorem src_first_difference (a b : List Nat) (ha : a ≠ []) (hb : b ≠ []) :
     find_first_difference_between_two (a.map Int.ofNat) (b.map Int.ofNat) =
       some ((firstDiff a b : Nat) : Int) := by
   unfold find_first_difference_between_two
-  simp only [Option.some.injEq, leni, List.length_map]
+  simp only [leni, List.length_map]
   have hn : (min (a.length : Int) (b.length : Int) - 0).toNat = min a.length b.length := by omega
   refine forRange_elim
-    (fun k (s : find_first_difference_between_two.S) =>
-      (s.brk = false ∧ s.i = ((k - 1 : Nat) : Int) ∧ ∀ j, j < k → a.getD j 0 = b.getD j 0) ∨
+    (P := fun k (s : find_first_difference_between_two.S) => s.err = false ∧ s.dry = false ∧
+      ((s.brk = false ∧ s.i = ((k - 1 : Nat) : Int) ∧ ∀ j, j < k → a.getD j 0 = b.getD j 0) ∨
       (s.brk = true ∧ ∃ d : Nat, s.i = (d : Int) ∧ d < k ∧ a.getD d 0 ≠ b.getD d 0 ∧
-        ∀ j, j < d → a.getD j 0 = b.getD j 0))
-    (fun s => s.i = ((firstDiff a b : Nat) : Int)) _ _ _ _ _ ?_ ?_ ?_
-  · left; simp
-  · intro k s hk hP
-    rcases hP with ⟨hbrk, hi, hall⟩ | ⟨hbrk, d, hi, hd, hne, hall⟩
-    · simp only [hbrk, Bool.false_eq_true, if_false, Int.zero_add, geti_map_ofNat]
+        ∀ j, j < d → a.getD j 0 = b.getD j 0)))
+    (Q := fun s => (if (s.err || s.dry) = true then none else some s.i) =
+      some ((firstDiff a b : Nat) : Int)) _ _ _ _ _ ?_ ?_ ?_
+  · refine ⟨rfl, rfl, ?_⟩; left; simp
+  · intro k s hk ⟨he, hd, hP⟩
+    rw [hn] at hk
+    have hia : inb (a.map Int.ofNat) (k : Int) = true := inb_ofNat' _ k (by simp; omega)
+    have hib : inb (b.map Int.ofNat) (k : Int) = true := inb_ofNat' _ k (by simp; omega)
+    rcases hP with ⟨hbrk, hi, hall⟩ | ⟨hbrk, d, hi, hd', hne, hall⟩
+    · simp only [hbrk, he, hd, hia, hib, Bool.false_eq_true, if_false, Int.zero_add, geti_map_ofNat,
+        Bool.not_true, Bool.or_self]
       by_cases hab : a.getD k 0 = b.getD k 0
-      · left
-        simp only [hab, ne_eq, not_true_eq_false, decide_false, Bool.false_eq_true, if_false,
+      · simp only [hab, ne_eq, not_true_eq_false, decide_false, Bool.false_eq_true, if_false,
           true_and]
+        left
         refine ⟨by simp, ?_⟩
         intro j hj
         by_cases hjk : j = k
         · subst hjk; exact hab
         · exact hall j (by omega)
-      · right
-        have hab' : ¬ ((a.getD k 0 : Nat) : Int) = ((b.getD k 0 : Nat) : Int) := by
+      · have hab' : ¬ ((a.getD k 0 : Nat) : Int) = ((b.getD k 0 : Nat) : Int) := by
           intro h; exact hab (Int.ofNat.inj h)
         simp only [ne_eq, hab', not_false_eq_true, decide_true, if_true, true_and]
+        right
         exact ⟨k, rfl, Nat.lt_succ_self k, hab, hall⟩
-    · right
-      simp only [hbrk, if_true, true_and]
-      exact ⟨d, hi, Nat.lt_succ_of_lt hd, hne, hall⟩
-  · intro s key
+    · simp only [hbrk, if_true, true_and]
+      exact ⟨he, hd, Or.inr ⟨d, hi, Nat.lt_succ_of_lt hd', hne, hall⟩⟩
+  · intro s ⟨he, hd, key⟩
     rw [hn] at key
-    rcases key with ⟨_, hi, hall⟩ | ⟨_, d, hi, hd, hne, hall⟩
-    · simp only [hi]
-      rw [firstDiff_of_all a b ha hb hall]
-    · simp only [hi]
-      rw [firstDiff_of_diff a b d (by omega) (by omega) hne hall]
+    rcases key with ⟨_, hi, hall⟩ | ⟨_, d, hi, hd', hne, hall⟩
+    · simp only [hi, he, hd]
+      rw [firstDiff_of_all a b ha hb hall]; simp
+    · simp only [hi, he, hd]
+      rw [firstDiff_of_diff a b d (by omega) (by omega) hne hall]; simp
 
 /-! ### find_end_subtree_from_i -/
 
@@ -124,60 +131,72 @@ theorem arInt_length (a : Flat) : (arInt a).length = a.length := by simp [arInt]
 theorem geti_mid (L R : List Int) (x : Int) : geti (L ++ x :: R) (L.length : Int) = x := by
   simp [geti]
 
+private theorem inb_mid (L R : List Int) (x : Int) : inb (L ++ x :: R) (L.length : Int) = true := by
+  apply inb_ofNat'; simp
+
+/-- no pending `break`, no out-of-range access so far, not a dry run -/
+def FesClean (s : find_end_subtree_from_i.S) : Prop := s.brk = false ∧ s.err = false ∧ s.dry = false
+
 mutual
 /-- the translated `while possible_steps:` loop (described by what its condition and body do)
-    run over one subtree: it consumes `t.size` iterations, advances `n_index` by `t.size` and
-    closes one pending slot -/
+    run over one subtree: it consumes `t.size` iterations, advances `n_index` by `t.size`,
+    closes one pending slot and reads only inside the array -/
 theorem run_flat (A : List Int)
     (c : find_end_subtree_from_i.S → Bool) (b : find_end_subtree_from_i.S → find_end_subtree_from_i.S)
-    (hc : ∀ s, c s = truthy s.possible_steps)
+    (hc : ∀ s, c s = (!s.brk && truthy s.possible_steps))
     (hbp : ∀ s, (b s).possible_steps = s.possible_steps + (geti A s.n_index - 1))
     (hbn : ∀ s, (b s).n_index = s.n_index + 1)
+    (hbk : ∀ s, FesClean s → inb A s.n_index = true → FesClean (b s))
     (t : RT) (L R : List Int) (hA : A = L ++ arInt (flat t) ++ R) (n f : Nat)
     (s : find_end_subtree_from_i.S) (hn : s.n_index = (L.length : Int))
-    (hp : s.possible_steps = (n : Int) + 1) :
+    (hp : s.possible_steps = (n : Int) + 1) (hcl : FesClean s) :
     ∃ s', whileN (t.size + f) c b s = whileN f c b s' ∧
-      s'.n_index = ((L.length + t.size : Nat) : Int) ∧ s'.possible_steps = (n : Int) := by
+      s'.n_index = ((L.length + t.size : Nat) : Int) ∧ s'.possible_steps = (n : Int) ∧ FesClean s' := by
   cases t with
   | node sym ks =>
     have hstep : whileN (RT.size (.node sym ks) + f) c b s = whileN (sizeL ks + f) c b (b s) := by
       rw [size_node, show 1 + sizeL ks + f = (sizeL ks + f) + 1 by omega]
       apply whileN_step
-      rw [hc, hp]; simp [truthy]; omega
+      rw [hc, hp, hcl.1]; simp [truthy]; omega
     have hA' : A = (L ++ [(ks.length : Int)]) ++ arInt (flatL ks) ++ R := by
       rw [hA]; simp [arInt, flat]
     have hg : geti A s.n_index = (ks.length : Int) := by
       rw [hn, hA]; simp only [arInt, arities_flat_node, List.map_cons, List.append_assoc,
         List.cons_append]
       exact geti_mid _ _ _
-    obtain ⟨s', h1, h2, h3⟩ := run_flatL A c b hc hbp hbn ks (L ++ [(ks.length : Int)]) R hA' n f (b s)
-      (by rw [hbn, hn]; simp) (by rw [hbp, hp, hg]; omega)
-    refine ⟨s', by rw [hstep, h1], ?_, h3⟩
+    have hi : inb A s.n_index = true := by
+      rw [hn, hA]; simp only [arInt, arities_flat_node, List.map_cons, List.append_assoc,
+        List.cons_append]
+      exact inb_mid _ _ _
+    obtain ⟨s', h1, h2, h3, h4⟩ := run_flatL A c b hc hbp hbn hbk ks (L ++ [(ks.length : Int)]) R hA' n f (b s)
+      (by rw [hbn, hn]; simp) (by rw [hbp, hp, hg]; omega) (hbk s hcl hi)
+    refine ⟨s', by rw [hstep, h1], ?_, h3, h4⟩
     rw [h2, size_node]; simp; omega
 /-- the same over a forest: one pending slot closed per tree -/
 theorem run_flatL (A : List Int)
     (c : find_end_subtree_from_i.S → Bool) (b : find_end_subtree_from_i.S → find_end_subtree_from_i.S)
-    (hc : ∀ s, c s = truthy s.possible_steps)
+    (hc : ∀ s, c s = (!s.brk && truthy s.possible_steps))
     (hbp : ∀ s, (b s).possible_steps = s.possible_steps + (geti A s.n_index - 1))
     (hbn : ∀ s, (b s).n_index = s.n_index + 1)
+    (hbk : ∀ s, FesClean s → inb A s.n_index = true → FesClean (b s))
     (ts : List RT) (L R : List Int) (hA : A = L ++ arInt (flatL ts) ++ R) (n f : Nat)
     (s : find_end_subtree_from_i.S) (hn : s.n_index = (L.length : Int))
-    (hp : s.possible_steps = (n : Int) + (ts.length : Int)) :
+    (hp : s.possible_steps = (n : Int) + (ts.length : Int)) (hcl : FesClean s) :
     ∃ s', whileN (sizeL ts + f) c b s = whileN f c b s' ∧
-      s'.n_index = ((L.length + sizeL ts : Nat) : Int) ∧ s'.possible_steps = (n : Int) := by
+      s'.n_index = ((L.length + sizeL ts : Nat) : Int) ∧ s'.possible_steps = (n : Int) ∧ FesClean s' := by
   cases ts with
   | nil =>
-    refine ⟨s, by simp, by simpa using hn, by simpa using hp⟩
+    refine ⟨s, by simp, by simpa using hn, by simpa using hp, hcl⟩
   | cons t ts =>
     have hA1 : A = L ++ arInt (flat t) ++ (arInt (flatL ts) ++ R) := by
       rw [hA, flatL_cons, arInt_append]; simp
-    obtain ⟨s1, h1, h2, h3⟩ := run_flat A c b hc hbp hbn t L _ hA1 (n + ts.length) (sizeL ts + f) s hn
-      (by rw [hp]; simp; omega)
+    obtain ⟨s1, h1, h2, h3, h4⟩ := run_flat A c b hc hbp hbn hbk t L _ hA1 (n + ts.length) (sizeL ts + f) s hn
+      (by rw [hp]; simp; omega) hcl
     have hA2 : A = (L ++ arInt (flat t)) ++ arInt (flatL ts) ++ R := by
       rw [hA, flatL_cons, arInt_append]; simp
-    obtain ⟨s2, k1, k2, k3⟩ := run_flatL A c b hc hbp hbn ts (L ++ arInt (flat t)) R hA2 n f s1
-      (by rw [h2]; simp [size_flat]) (by rw [h3]; simp)
-    refine ⟨s2, ?_, ?_, k3⟩
+    obtain ⟨s2, k1, k2, k3, k4⟩ := run_flatL A c b hc hbp hbn hbk ts (L ++ arInt (flat t)) R hA2 n f s1
+      (by rw [h2]; simp [size_flat]) (by rw [h3]; simp) h4
+    refine ⟨s2, ?_, ?_, k3, k4⟩
     · rw [sizeL_cons, show t.size + sizeL ts + f = t.size + (sizeL ts + f) by omega, h1, k1]
     · rw [k2, sizeL_cons]; simp [size_flat]; omega
 end
@@ -185,15 +204,18 @@ end
 /-- with exactly as many pending slots as trees the loop stops right after the forest -/
 theorem run_flatL_zero (A : List Int)
     (c : find_end_subtree_from_i.S → Bool) (b : find_end_subtree_from_i.S → find_end_subtree_from_i.S)
-    (hc : ∀ s, c s = truthy s.possible_steps)
+    (hc : ∀ s, c s = (!s.brk && truthy s.possible_steps))
     (hbp : ∀ s, (b s).possible_steps = s.possible_steps + (geti A s.n_index - 1))
     (hbn : ∀ s, (b s).n_index = s.n_index + 1)
+    (hbk : ∀ s, FesClean s → inb A s.n_index = true → FesClean (b s))
     (ts : List RT) (L R : List Int) (hA : A = L ++ arInt (flatL ts) ++ R) (f : Nat)
     (s : find_end_subtree_from_i.S) (hn : s.n_index = (L.length : Int))
-    (hp : s.possible_steps = (ts.length : Int)) :
-    (whileN (sizeL ts + f) c b s).n_index = ((L.length + sizeL ts : Nat) : Int) := by
-  obtain ⟨s', h1, h2, h3⟩ := run_flatL A c b hc hbp hbn ts L R hA 0 f s hn (by simp [hp])
-  rw [h1, whileN_of_false _ _ _ _ (by simp [hc, truthy, h3]), h2]
+    (hp : s.possible_steps = (ts.length : Int)) (hcl : FesClean s) :
+    (whileN (sizeL ts + f) c b s).n_index = ((L.length + sizeL ts : Nat) : Int) ∧
+      FesClean (whileN (sizeL ts + f) c b s) := by
+  obtain ⟨s', h1, h2, h3, h4⟩ := run_flatL A c b hc hbp hbn hbk ts L R hA 0 f s hn (by simp [hp]) hcl
+  rw [h1, whileN_of_false _ _ _ _ (by simp [hc, truthy, h3])]
+  exact ⟨h2, h4⟩
 
 /-- the kernel returns the index one past the subtree -/
 theorem src_find_end_subtree_size (pre post : Flat) (t : RT) :
@@ -202,7 +224,7 @@ theorem src_find_end_subtree_size (pre post : Flat) (t : RT) :
   cases t with
   | node sym ks =>
     unfold find_end_subtree_from_i
-    simp only [Option.some.injEq]
+    simp only []
     have hA : arInt (pre ++ flat (.node sym ks) ++ post) =
         (arInt pre ++ [(ks.length : Int)]) ++ arInt (flatL ks) ++ arInt post := by
       simp [arInt, flat, arities_append]
@@ -213,12 +235,22 @@ theorem src_find_end_subtree_size (pre post : Flat) (t : RT) :
       have := geti_mid (arInt pre) (arInt (flatL ks) ++ arInt post) (ks.length : Int)
       rw [arInt_length] at this
       rw [← this, hA]; simp
+    have hi : inb (arInt (pre ++ flat (.node sym ks) ++ post)) (pre.length : Int) = true := by
+      have := inb_mid (arInt pre) (arInt (flatL ks) ++ arInt post) (ks.length : Int)
+      rw [arInt_length] at this
+      rw [← this, hA]; simp
     rw [hlen]
-    refine (run_flatL_zero (arInt (pre ++ flat (.node sym ks) ++ post)) _ _
-      (fun s => rfl) (fun s => rfl) (fun s => rfl) ks (arInt pre ++ [(ks.length : Int)]) (arInt post) hA
-      (pre.length + post.length + 2) _ (by simp) hg).trans ?_
+    generalize hW : whileN _ _ _ _ = W
+    obtain ⟨h1, -, h2, h3⟩ : W.n_index = ((((arInt pre ++ [(ks.length : Int)]).length + sizeL ks : Nat)) : Int) ∧
+        FesClean W := by
+      rw [← hW]
+      refine run_flatL_zero (arInt (pre ++ flat (.node sym ks) ++ post)) _ _
+        (fun s => rfl) (fun s => rfl) (fun s => rfl) ?_ ks (arInt pre ++ [(ks.length : Int)])
+        (arInt post) hA (pre.length + post.length + 2) _ (by simp) hg ⟨rfl, by simp only [hi, Bool.not_true, Bool.or_self], rfl⟩
+      intro s ⟨hb, he, hd⟩ hin
+      exact ⟨hb, by simp only [he, hin, Bool.not_true, Bool.or_self], hd⟩
     rw [size_node]
-    simp; omega
+    simp [h1, h2, h3]; omega
 
 theorem src_find_end_subtree (pre post : Flat) (t : RT) :
     find_end_subtree_from_i (pre.length : Int) ((arities (pre ++ flat t ++ post)).map Int.ofNat) =
@@ -261,6 +293,15 @@ theorem set_take_replicate (T : List Int) (k j : Nat) (hT : T.length = k) (hj : 
   subst hv
   grind
 
+private theorem inb_root (pre post : Flat) (sym : Nat) (ks : List RT) :
+    inb (arInt (pre ++ flat (.node sym ks) ++ post)) (pre.length : Int) = true := by
+  apply inb_ofNat'
+  simp [arInt, flat]
+
+private theorem inb_of_bounds (a : List Int) (i : Int) (h0 : 0 ≤ i) (h1 : i < (a.length : Int)) :
+    inb a i = true := by
+  simp only [inb, Bool.and_eq_true, decide_eq_true_eq]; exact ⟨h0, h1⟩
+
 theorem src_find_id_args (pre post : Flat) (t : RT) :
     find_id_args_from_i (pre.length : Int) ((arities (pre ++ flat t ++ post)).map Int.ofNat) =
       some ((argsIds pre.length (arities (pre ++ flat t ++ post))).map Int.ofNat) := by
@@ -268,14 +309,19 @@ theorem src_find_id_args (pre post : Flat) (t : RT) :
   | node sym ks =>
     rw [argsIds_flat]
     unfold find_id_args_from_i
-    simp only [Option.some.injEq, geti_root pre post sym ks, Int.toNat_natCast, leni,
-      List.length_replicate]
+    have hroot : inb (List.map Int.ofNat (arities (pre ++ flat (.node sym ks) ++ post)))
+        (pre.length : Int) = true := inb_root pre post sym ks
+    simp only [geti_root pre post sym ks, hroot, Int.toNat_natCast, leni,
+      List.length_replicate, Bool.not_true, Bool.or_self]
     rcases Nat.eq_zero_or_pos ks.length with hk | hk
     · have : ks = [] := List.length_eq_zero_iff.mp hk
       subst this
       simp [forRange]
     have hk' : (ks.length : Int) > 0 := by omega
-    simp only [hk', decide_true, if_true, seti, List.length_set, List.length_replicate]
+    have hir : inb (List.replicate ks.length (0 : Int)) 0 = true :=
+      inb_of_bounds _ _ (by omega) (by simp; omega)
+    simp only [hk', hir, decide_true, if_true, seti, List.length_set, List.length_replicate,
+      Bool.not_true, Bool.or_self]
     generalize hT : ((List.range ks.length).map fun c => pre.length + 1 + sizeL (ks.take c)).map
       Int.ofNat = T
     have hTlen : T.length = ks.length := by simp [← hT]
@@ -283,10 +329,11 @@ theorem src_find_id_args (pre post : Flat) (t : RT) :
       intro j hj
       simp [← hT, List.getD_eq_getElem?_getD, hj]
     refine forRange_elim
-      (fun j (s : find_id_args_from_i.S) => s.brk = false ∧
+      (P := fun j (s : find_id_args_from_i.S) => s.brk = false ∧ s.err = false ∧ s.dry = false ∧
         s.out = T.take (j + 1) ++ List.replicate (ks.length - (j + 1)) 0)
-      (fun s => s.out = T) _ _ _ _ _ ?_ ?_ ?_
-    · refine ⟨rfl, ?_⟩
+      (Q := fun s => (if (s.err || s.dry) = true then none else some s.out) = some T)
+      _ _ _ _ _ ?_ ?_ ?_
+    · refine ⟨rfl, rfl, rfl, ?_⟩
       have h0 := hTget 0 hk
       cases T with
       | nil => simp at hTlen; omega
@@ -295,7 +342,7 @@ theorem src_find_id_args (pre post : Flat) (t : RT) :
         simp only [List.getD_cons_zero, List.take_zero, sizeL_nil, Nat.add_zero] at h0
         rw [hk'', h0]
         simp [List.replicate_succ]
-    · intro j s hj ⟨hb, ho⟩
+    · intro j s hj ⟨hb, he, hd, ho⟩
       have hj' : j + 1 < ks.length := by omega
       have h1 : (1 + (j : Int) - 1) = (j : Int) := by omega
       have h2 : (1 + (j : Int)).toNat = j + 1 := by omega
@@ -303,14 +350,20 @@ theorem src_find_id_args (pre post : Flat) (t : RT) :
         rw [geti_ofNat, ho]
         simp only [List.getD_eq_getElem?_getD]
         rw [List.getElem?_append_left (by simp; omega), List.getElem?_take_of_lt (by omega)]
+      have hin : inb s.out (1 + (j : Int)) = true := by
+        apply inb_of_bounds _ _ (by omega)
+        rw [ho]; simp only [List.length_append, List.length_take, List.length_replicate]; omega
       have hfes := fes_kid pre post sym ks j (by omega)
       rw [← hTget j (by omega), ← hTget (j + 1) hj'] at hfes
-      simp only [hb, Bool.false_eq_true, if_false, h1, h2, hget, true_and]
-      rw [show List.map Int.ofNat (arities (pre ++ flat (RT.node sym ks) ++ post)) =
-        arInt (pre ++ flat (RT.node sym ks) ++ post) from rfl, hfes, Option.getD_some, ho]
+      have hfes' : find_end_subtree_from_i (T.getD j 0)
+          (List.map Int.ofNat (arities (pre ++ flat (RT.node sym ks) ++ post))) =
+          some (T.getD (j + 1) 0) := hfes
+      simp only [hb, Bool.false_eq_true, if_false, h1, h2, hget, hfes', he, hd, hin, Bool.not_true,
+        Bool.or_self, true_and]
+      rw [ho]
       exact set_take_replicate T ks.length j hTlen hj' _ rfl
-    · intro s ⟨_, ho⟩
+    · intro s ⟨_, he, hd, ho⟩
       have h3 : ((ks.length : Int) - 1).toNat + 1 = ks.length := by omega
-      rw [ho, h3, ← hTlen]; simp
+      rw [ho, h3, ← hTlen]; simp [he, hd]
 
 end TFV.SrcTie
